@@ -26,7 +26,7 @@ namespace Pybtex.Scanner
 This is `re.match('[class]*', text, pos)`. -/
 def takeRun (p : Char → Bool) : Str → Str × Str
   | [] => ([], [])
-  | c :: r => if p c then ((takeRun p r).1.cons c, (takeRun p r).2) else ([], c :: r)
+  | c :: r => if p c then (let t := takeRun p r; (c :: t.1, t.2)) else ([], c :: r)
 
 /-- `s.count("\r\n")` (non-overlapping occurrences; they cannot overlap). -/
 def countCRLF : Str → Nat
@@ -81,6 +81,8 @@ inductive Err where
   | eof
   | prematureEOF (line : Nat)
   | tokenRequired (desc : Str) (line : Nat)
+  /-- not a Python outcome: returned by fuel-indexed parser loops when the fuel runs out; the
+  adequacy theorems of each parser show that the entry points never return it -/
   | outOfFuel
   deriving DecidableEq, Repr
 
